@@ -251,6 +251,11 @@ inline Progress g_progress;
 inline std::string g_crash_dir;
 inline World* g_world = nullptr;
 inline Plan g_current_plan;
+// Crash record prepared BEFORE each run so that the signal handler only needs open/write.
+inline char g_crash_path[512];
+inline char g_crash_buf[1 << 20];
+inline size_t g_crash_len = 0;
+inline unsigned g_run_alarm_s = 15; // watchdog per run (SIGALRM -> treated like a crash: "hang")
 
 // ---------------------------------------------------------------- json (tiny)
 inline std::string jesc(const std::string& s)
@@ -296,6 +301,27 @@ inline std::string plan_json(const World& w, const Plan& p)
   }
   s += "]}";
   return s;
+}
+
+#ifndef SIM_BUILD_NAME
+#  define SIM_BUILD_NAME "plain"
+#endif
+inline void prepare_crash_record(const World& w, const Plan& p, uint64_t rs, uint64_t idx)
+{
+  g_crash_len = 0;
+  g_crash_path[0] = 0;
+  if (g_crash_dir.empty())
+    return;
+  snprintf(g_crash_path, sizeof g_crash_path, "%s/crash-%s-%llu-%llu.json", g_crash_dir.c_str(), w.name(), (unsigned long long)rs, (unsigned long long)idx);
+  std::string pj = plan_json(w, p);
+  int n = snprintf(g_crash_buf,
+                   sizeof g_crash_buf,
+                   "{\"world\":\"%s\",\"property\":\"-\",\"class\":\"crash\",\"detail\":\"worker died\",\"runseed\":%llu,\"hash\":\"0\",\"build\":\"%s\",\n\"plan\":%s,\n\"trace\":[]}\n",
+                   w.name(),
+                   (unsigned long long)rs,
+                   SIM_BUILD_NAME,
+                   pj.c_str());
+  g_crash_len = n > 0 && (size_t)n < sizeof g_crash_buf ? (size_t)n : 0;
 }
 
 // Minimal parser for the files written by plan_json / write_replay.
@@ -495,7 +521,10 @@ inline Exec execute_isolated(World& w,
     close(fd[0]);
     // crash handlers of the worker must not write crash plans for these children
     g_crash_dir.clear();
+    g_crash_len = 0;
+    alarm(g_run_alarm_s);
     Exec e = execute(w, p, known, trace);
+    alarm(0);
     std::string out;
     out += "H " + hex64(e.hash) + " " + std::to_string((int)e.nontrivial) + "\n";
     for (auto& v : e.v)
@@ -851,7 +880,10 @@ inline int sim_main(World& w, int argc, char** argv)
       return 2;
     }
     g_current_plan = r.plan;
+    g_crash_len = 0;
+    alarm(g_run_alarm_s);
     Exec e = execute(w, r.plan, &known, true);
+    alarm(0);
     for (auto& l : e.lines)
       printf("  %s\n", l.c_str());
     printf("REPLAY hash=%s recorded=%s\n", hex64(e.hash).c_str(), r.hash.c_str());
@@ -957,9 +989,12 @@ inline int sim_main(World& w, int argc, char** argv)
     g_progress.runseed = rs;
     g_progress.phase = 1;
     g_current_plan = p;
+    prepare_crash_record(w, p, rs, idx);
     printf("BEGIN %s %" PRIu64 " %" PRIu64 "\n", kind, idx, rs);
     fflush(stdout);
+    alarm(g_run_alarm_s);
     Exec e = execute(w, p, &known);
+    alarm(0);
     evaluations++;
     total.merge(e.st);
     if (e.nontrivial) {
